@@ -78,8 +78,8 @@ def coq_files():
 def build_model(full=False):
     """make the Coq development (full .vo build), extract, compile the OCaml drivers"""
     with Lock("coq"):
-        if not os.path.exists(os.path.join(COQ, "Makefile")) or full:
-            sh(["coq_makefile", "-f", "_CoqProject", "-o", "Makefile"], cwd=COQ)
+        # always regenerated: a _CoqProject copied into place keeps its old time stamp, and make would not notice it
+        sh(["coq_makefile", "-f", "_CoqProject", "-o", "Makefile"], cwd=COQ)
         if full:
             sh(["make", "clean"], cwd=COQ)
         rc, out = sh(["timeout", "1200", "make", "-j16"], cwd=COQ, timeout=1300)
